@@ -331,3 +331,57 @@ def make_source(res, route: str, tmpdir: str):
             res["sampler"].save_checkpoint_to_hdf(ck["state"], h5, path="checkpoint", dsetname="state")
         return p
     raise ValueError(route)
+
+
+def run_sampler(cfg: dict, fault_at=None):
+    """importance / minipcn / emcee (plain MCMC) samplers with the same target + proposal machinery"""
+    cfg = {**DEFAULT, **cfg}
+    if cfg["sampler"] in ("minipcn_smc", "smc", "emcee_smc"):
+        return run_smc(cfg, fault_at=fault_at, record_checkpoints=cfg.get("record_checkpoints", False))
+    target = Target(cfg["dims"], center=cfg["like_center"], width=cfg["like_width"], half=cfg["half"], like_cut=cfg["like_cut"])
+    target.fault_at = fault_at
+    xp = ns.get_xp(cfg["ns"])
+    dt = ns.native_dtype(cfg["ns"], cfg["width"])
+    flow = make_proposal(cfg["dims"], mu=cfg["prop_mu"], sigma=cfg["prop_sigma"], seed=cfg["seed"] + 17, xp_name=cfg["ns"],
+                         kind=cfg.get("prop_kind", "gauss"))
+    params = [f"p{i}" for i in range(cfg["dims"])]
+    transform = None
+    if cfg.get("precond"):
+        from aspire.transforms import CompositeTransform
+
+        pc = dict(cfg["precond"])
+        bounds = {p: [-cfg["half"], cfg["half"]] for p in params}
+        transform = CompositeTransform(parameters=params, prior_bounds=bounds, xp=xp, dtype=dt,
+                                       periodic_parameters=[params[i] for i in pc.pop("periodic", [])], **pc)
+    common = dict(log_likelihood=target.log_likelihood, log_prior=target.log_prior, dims=cfg["dims"], prior_flow=flow, xp=xp,
+                  dtype=dt, parameters=params, preconditioning_transform=transform)
+    rng = RecRng(cfg["seed"])
+    out = {"cfg": cfg, "target": target, "flow": flow, "rng": rng, "ckpts": []}
+    try:
+        if cfg["sampler"] == "importance":
+            from aspire.samplers.importance import ImportanceSampler
+
+            s = ImportanceSampler(**common)
+            out["sampler"] = s
+            out["samples"] = s.sample(cfg["n_samples"])
+        elif cfg["sampler"] == "minipcn":
+            from aspire.samplers.mcmc import MiniPCN
+
+            s = MiniPCN(**common)
+            out["sampler"] = s
+            out["samples"] = s.sample(cfg["n_samples"], rng=rng, n_steps=cfg["kernel_steps"] + 2)
+        elif cfg["sampler"] == "emcee":
+            from aspire.samplers.mcmc import Emcee
+
+            np.random.seed(cfg["seed"])
+            s = Emcee(**common)
+            out["sampler"] = s
+            out["samples"] = s.sample(cfg["n_samples"], nsteps=cfg["kernel_steps"] + 2)
+        else:
+            raise ValueError(cfg["sampler"])
+        out["status"] = "done"
+    except Fault as e:
+        out["status"], out["exc"] = "fault", e
+    except Exception as e:   # noqa
+        out["status"], out["exc"] = "raised", e
+    return out
